@@ -87,6 +87,9 @@ var breakingDeprecated = map[string][]string{
 	"FILE_SAME_JAVA_STRING_CHECK_UTF8": {"FIELD_SAME_JAVA_UTF8_VALIDATION"},
 }
 
+// breakingDeprecatedMulti: the deprecated ids that stand for more than one rule.
+var breakingDeprecatedMulti = map[string]bool{"FIELD_SAME_LABEL": true}
+
 func isDeprecatedBreaking(id, ver string) bool {
 	_, ok := breakingDeprecated[id]
 	return ok && ver != "v2"
@@ -503,6 +506,22 @@ func genConfig(t *rapid.T, kind string, paths []string, hot []string) Config {
 			delete(cfg.IgnoreOnly, id)
 		}
 	}
+	if kind == "breaking" && ver != "v2" && rapid.IntRange(0, 2).Draw(t, "deprecated-and-replacement") == 0 {
+		// a deprecated id with several replacements and one of those replacements, each with its own paths
+		for _, d := range protogen.SortedKeys(breakingDeprecatedMulti) {
+			repl := breakingDeprecated[d]
+			if p := prefixFree(pickSome(t, "deprecated-paths", pathPool, 2)); len(p) > 0 {
+				cfg.IgnoreOnly[d] = p
+			}
+			r := repl[rapid.IntRange(0, len(repl)-1).Draw(t, "replacement")]
+			if p := prefixFree(pickSome(t, "replacement-paths", pathPool, 2)); len(p) > 0 {
+				cfg.IgnoreOnly[r] = p
+			}
+			if len(cfg.Use) > 0 && rapid.Bool().Draw(t, "use-replacements") {
+				cfg.Use = append(cfg.Use, repl...)
+			}
+		}
+	}
 	cfg.AllowCommentIgnores = kind == "lint" && rapid.IntRange(0, 3).Draw(t, "allowcomments") != 0
 	unknown := true
 	for i := 0; i < 5; i++ { // five fair coins: 1/32 (rapid's integer ranges are biased towards small values)
@@ -724,6 +743,18 @@ func genBreaking(ctx context.Context, t *rapid.T) *Case {
 				hot["FIELD_NO_DELETE"] = true
 				hot["FIELD_NO_DELETE_UNLESS_NUMBER_RESERVED"] = true
 				hot["MESSAGE_NO_DELETE"] = true
+			}
+		}
+	}
+	// sometimes: cardinality changes, whose three rules replace one deprecated id (ignore_only keyed by the
+	// deprecated id and by one of its replacements must stay separate)
+	if rapid.IntRange(0, 2).Draw(t, "cardinality") == 0 {
+		for k := rapid.IntRange(1, 3).Draw(t, "ncardinality"); k > 0; k-- {
+			name := []string{"optional-to-repeated", "repeated-to-optional"}[rapid.IntRange(0, 1).Draw(t, "cardinalityop")]
+			if e := ed.ApplyBreakingNamed(nw, name); e != nil {
+				for _, r := range e.Rules {
+					hot[r] = true
+				}
 			}
 		}
 	}
